@@ -73,8 +73,15 @@ def run(ctx):
     rng = ctx.rng
     nsch = ctx.n(140, 6000)
     reach = ctx.reach
-    for si in range(nsch):
-        schema = lvs.gen_schema(rng, with_signers=(si % 4 == 3))
+    templates = []
+    for _ in range(ctx.n(3, 12)):
+        templates += lvs.template_schemas(rng, False)
+    for si in range(nsch + len(templates)):
+        if si < len(templates):
+            schema = templates[si]
+            ctx.klass('template-schema')
+        else:
+            schema = lvs.gen_schema(rng, with_signers=(si % 4 == 3))
         text = lvs.schema_text(schema)
         w = {'schema': text}
         tot_alts, max_len_ = lvs.alt_counts(schema)
@@ -148,5 +155,6 @@ def run(ctx):
     for k in ('name-matching', 'name-not-matching'):
         ctx.need_event(k)
     ctx.need_class('schema-with-double-reference')
+    ctx.need_class('template-schema')
     ctx.assumptions = ['interior tree nodes reported as #_<id> are not matches for a rule and are filtered out',
                        'constraints refer only to patterns of the rule itself or of rules it references']
